@@ -1139,6 +1139,24 @@ func (g *Gen) opHostileHTTP() {
 	if rapid.IntRange(0, 9).Draw(g.t, "badprefix") == 0 {
 		prefix = g.sample("prefix", []string{"/", "/ap/", "/api", "/api//"})
 	}
+	if rapid.IntRange(0, 9).Draw(g.t, "encprefix") == 0 {
+		// one character of the configured prefix itself percent-encoded: the decoded
+		// path still routes to the API handler, the raw path does not start with it
+		var pos []int
+		for i := 0; i < len(prefix); i++ {
+			if prefix[i] != '/' {
+				pos = append(pos, i)
+			}
+		}
+		if len(pos) > 0 {
+			i := pos[rapid.IntRange(0, len(pos)-1).Draw(g.t, "encpos")]
+			enc := fmt.Sprintf("%%%02X", prefix[i])
+			if rapid.Bool().Draw(g.t, "enclower") {
+				enc = strings.ToLower(enc)
+			}
+			prefix = prefix[:i] + enc + prefix[i+1:]
+		}
+	}
 	url := prefix + strings.Join(segs, "/")
 	if rapid.IntRange(0, 3).Draw(g.t, "hq") == 0 {
 		url += "?" + g.sample("hquery", []string{"a=1", "x.y=*", "%20", "a=>", "a=1?b=2", "?", "x%20.%3E?y", "a=1%3Fb=2"})
